@@ -64,6 +64,7 @@ type Input struct {
 	Server *Server `json:"server,omitempty"`
 	Client *Client `json:"client,omitempty"`
 	Flow   *Flow   `json:"flow,omitempty"`
+	Conc   *Conc   `json:"conc,omitempty"`
 }
 
 // Direct: real auth.Sender -> real auth.Verify.  The server side is (Methods, User, Pass, Realm,
@@ -226,18 +227,38 @@ func (r *runner) direct(d *Direct, name string) {
 	r.guard(in, func() { r.direct1(d, in, name) })
 }
 
-func (r *runner) direct1(d *Direct, in *Input, name string) {
-	c := r.c
+// directOut: what the real code answered on one Direct case (no harness bookkeeping: directExec is
+// also run from many goroutines at once by the concurrent workload).
+type directOut struct {
+	skip          string // non-empty: the case could not be built (counter name)
+	su, vu, curl  *base.URL
+	cu, cp        S
+	crealm        S
+	cnonce        S
+	cmethod       string
+	verifyMethods []int
+	www           base.HeaderValue
+	sendNone      bool
+	sendErr       error
+	hvSent        base.HeaderValue // what Sender.AddAuthorization produced
+	hv            base.HeaderValue // what was verified (after a header-level perturbation)
+	scheme        string
+	verr          error
+}
+
+// directExec runs the real GenerateWWWAuthenticate -> Sender -> Verify path of one Direct case.
+func directExec(d *Direct) (o *directOut) {
+	o = &directOut{}
 	su, err := base.ParseURL(d.URL)
 	if err != nil {
-		c.Dist("direct:url-unparsable")
+		o.skip = "direct:url-unparsable"
 		return
 	}
 	vu := su
 	if !d.KeepCreds {
 		vu = stripCreds(su)
 		if vu == nil {
-			c.Dist("direct:url-unparsable-after-strip")
+			o.skip = "direct:url-unparsable-after-strip"
 			return
 		}
 	}
@@ -260,37 +281,25 @@ func (r *runner) direct1(d *Direct, in *Input, name string) {
 		var e error
 		curl, e = base.ParseURL(string(d.Alt))
 		if e != nil {
-			c.Dist("direct:alt-url-unparsable")
+			o.skip = "direct:alt-url-unparsable"
 			return
 		}
 	}
-
-	cs := corr.Case{Name: name, Nontrivial: true}
-	add := func(op, impl string) {
-		cs.Ops = append(cs.Ops, op)
-		cs.Impl = append(cs.Impl, impl)
-	}
+	o.su, o.vu, o.curl, o.cu, o.cp, o.crealm, o.cnonce, o.cmethod = su, vu, curl, cu, cp, crealm, cnonce, cmethod
 
 	www := gauth.GenerateWWWAuthenticate(toVM(d.Methods), string(crealm), string(cnonce))
-	add(fmt.Sprintf("auth www %s %s %s", methodsTok(d.Methods), hx(crealm), hx(cnonce)), listTok(www))
-
+	o.www = www
 	se := &gauth.Sender{WWWAuth: www, User: string(cu), Pass: string(cp)}
-	sendOp := fmt.Sprintf("auth send %s %s %s %s %s", listTok(www), hx(cu), hx(cp), hxs(cmethod), hxs(curl.CloneWithoutCredentials().String()))
 	if err = se.Initialize(); err != nil {
-		add(sendOp, "none")
-		c.Dist("direct:sender-none")
-		if d.Perturb == "" && wellFormed(d, vu.String()) {
-			r.viol("a challenge the server can issue is usable by the sender", "auth-complete-sender", in, "Sender.Initialize: "+err.Error())
-		}
-		c.Add(cs)
+		o.sendNone, o.sendErr = true, err
 		return
 	}
 	sreq := &base.Request{Method: base.Method(cmethod), URL: curl}
 	se.AddAuthorization(sreq)
 	hv := sreq.Header["Authorization"]
-	add(sendOp, "hdr "+listTok(hv))
+	o.hvSent = hv
 	scheme := schemeOf(hv)
-	c.Dist("direct:scheme=" + scheme)
+	o.scheme = scheme
 
 	// header-level perturbations
 	switch d.Perturb {
@@ -326,12 +335,52 @@ func (r *runner) direct1(d *Direct, in *Input, name string) {
 			verifyMethods = verifyMethods[:1]
 		}
 	}
+	o.hv, o.verifyMethods = hv, verifyMethods
 
 	vreq := &base.Request{Method: base.Method(d.ReqMethod), URL: vu, Header: base.Header{"Authorization": hv}}
-	verr := gauth.Verify(vreq, string(d.User), string(d.Pass), toVM(verifyMethods), string(d.Realm), string(d.Nonce))
+	o.verr = gauth.Verify(vreq, string(d.User), string(d.Pass), toVM(verifyMethods), string(d.Realm), string(d.Nonce))
+	return
+}
+
+func (r *runner) direct1(d *Direct, in *Input, name string) {
+	r.directReport(d, directExec(d), in, name, true)
+}
+
+// directReport: correspondence lines (when addCase) and the property oracle for one executed case.
+func (r *runner) directReport(d *Direct, o *directOut, in *Input, name string, addCase bool) {
+	c := r.c
+	if o.skip != "" {
+		c.Dist(o.skip)
+		return
+	}
+	su, vu, curl, cu, cp, crealm, cnonce, cmethod := o.su, o.vu, o.curl, o.cu, o.cp, o.crealm, o.cnonce, o.cmethod
+	_ = cp
+	cs := corr.Case{Name: name, Nontrivial: true}
+	add := func(op, impl string) {
+		cs.Ops = append(cs.Ops, op)
+		cs.Impl = append(cs.Impl, impl)
+	}
+	add(fmt.Sprintf("auth www %s %s %s", methodsTok(d.Methods), hx(crealm), hx(cnonce)), listTok(o.www))
+	sendOp := fmt.Sprintf("auth send %s %s %s %s %s", listTok(o.www), hx(cu), hx(o.cp), hxs(cmethod), hxs(curl.CloneWithoutCredentials().String()))
+	if o.sendNone {
+		add(sendOp, "none")
+		c.Dist("direct:sender-none")
+		if d.Perturb == "" && wellFormed(d, vu.String()) {
+			r.viol("a challenge the server can issue is usable by the sender", "auth-complete-sender", in, "Sender.Initialize: "+o.sendErr.Error())
+		}
+		if addCase {
+			c.Add(cs)
+		}
+		return
+	}
+	add(sendOp, "hdr "+listTok(o.hvSent))
+	scheme, verr, verifyMethods, hv := o.scheme, o.verr, o.verifyMethods, o.hv
+	c.Dist("direct:scheme=" + scheme)
 	add(fmt.Sprintf("auth verify %s %s %s %s %s %s %s %s %s", hxs(d.ReqMethod), hxs(vu.String()), hxs(vu.RequestURI()),
 		listTok(hv), hx(d.User), hx(d.Pass), methodsTok(verifyMethods), hx(d.Realm), hx(d.Nonce)), okErr(verr))
-	c.Add(cs)
+	if addCase {
+		c.Add(cs)
+	}
 
 	// ---------------- property oracle, evaluated on the implementation's answers only ----------------
 	accepted := verr == nil
@@ -571,6 +620,8 @@ func (r *runner) replay(in *Input, name string) {
 		r.clientCase(in.Client, name)
 	case "flow":
 		r.flowCase(in.Flow, name)
+	case "conc":
+		r.concCase(in.Conc, name)
 	}
 }
 
@@ -589,7 +640,7 @@ func corpusDir() string {
 
 // Run is the domain entry point.
 func Run(c *corr.Ctx) {
-	c.Rule("direct: real auth.Sender -> real auth.Verify for generated user/password (incl. ':', '\"', non-ASCII, long)/realm/nonce/method list (nil, subsets, orders, duplicates)/request method/URL (ports, IPv6, paths, queries, trackID suffixes, credentials) with no perturbation (completeness) or exactly one perturbed field (user, pass, realm, nonce, method, algorithm, URL named in the header, URL in the response, scheme not enabled, SETUP base URL with/without slash, abs_path URI); raw: mutated / random Authorization and WWW-Authenticate texts through the parsers, Sender and Verify; hash and base64 sweeps over all lengths around block boundaries; server: real gortsplib.Server on loopback, scripted request sequences per connection (no credentials, right, wrong user/password/nonce, unparsable, empty user name) observing status, challenge and connection fate; client: real gortsplib.Client with URL credentials against it; flow: real gortsplib.Client (URL credentials, automatic protocol) playing from a scripted server that uses the library's GenerateNonce / GenerateWWWAuthenticate / Verify and challenges every new connection with a fresh nonce, for each of Basic / Digest-MD5 / Digest-SHA-256: plain TCP, forced UDP->TCP switch after the initial UDP timeout, TCP transport in the SETUP answer, redirect to a second challenging server (before / after authentication), PAUSE + PLAY again, keepalive, nonce changed mid-session (recorded only); non-trivial = every case; distinct = distinct op-line sequences")
+	c.Rule("direct: real auth.Sender -> real auth.Verify for generated user/password (incl. ':', '\"', non-ASCII, long)/realm/nonce/method list (nil, subsets, orders, duplicates)/request method/URL (ports, IPv6, paths, queries, trackID suffixes, credentials) with no perturbation (completeness) or exactly one perturbed field (user, pass, realm, nonce, method, algorithm, URL named in the header, URL in the response, scheme not enabled, SETUP base URL with/without slash, abs_path URI); raw: mutated / random Authorization and WWW-Authenticate texts through the parsers, Sender and Verify; hash and base64 sweeps over all lengths around block boundaries; server: real gortsplib.Server on loopback, scripted request sequences per connection (no credentials, right, wrong user/password/nonce, unparsable, empty user name) observing status, challenge and connection fate; client: real gortsplib.Client with URL credentials against it; flow: real gortsplib.Client (URL credentials, automatic protocol) playing from a scripted server that uses the library's GenerateNonce / GenerateWWWAuthenticate / Verify and challenges every new connection with a fresh nonce, for each of Basic / Digest-MD5 / Digest-SHA-256: plain TCP, forced UDP->TCP switch after the initial UDP timeout, TCP transport in the SETUP answer, redirect to a second challenging server (before / after authentication), PAUSE + PLAY again, keepalive, nonce changed mid-session (recorded only), with the first challenge at OPTIONS / DESCRIBE / ANNOUNCE / SETUP / PLAY / RECORD / PAUSE x base URL from absolute / relative / absent Content-Base or session-level control x media control relative / absolute / absent, play and record; conc: 8..16 goroutines started together, each thousands of Sender -> Verify round trips with its own credentials (MD5, SHA-256, Basic; right and singly perturbed), compared with the same cases run alone and with the model; non-trivial = every case; distinct = distinct op-line sequences")
 	r := &runner{c: c}
 	defer r.stopServers()
 
@@ -647,4 +698,5 @@ func Run(c *corr.Ctx) {
 		r.clientCase(g.client(), fmt.Sprintf("client-%d", i))
 	}
 	r.flows(g)
+	r.concs()
 }
